@@ -34,3 +34,11 @@ Definition c01_replace_ok (c : tree * path * tree * nat * tree) : bool :=
 
 Definition c01_derives_ok (c : grammar * string * tree) : bool :=
   let '(G, s, t) := c in derives_b G s t.
+
+(* DerivationTree.replace_multiple with several (replacee path, replacement) pairs *)
+Definition c01_replace_multi_ok (c : tree * list (path * tree) * nat * tree) : bool :=
+  let '(t, reps, fuel, obs) := c in
+  match replace_m fuel reps [] t with
+  | Some t' => tree_eqb t' obs
+  | None => false
+  end.
